@@ -3,9 +3,11 @@ package loader
 import (
 	"fmt"
 	"github.com/f1bonacc1/process-compose/src/command"
+	"github.com/f1bonacc1/process-compose/src/health"
 	"github.com/f1bonacc1/process-compose/src/templater"
 	"github.com/f1bonacc1/process-compose/src/types"
 	"github.com/rs/zerolog/log"
+	"maps"
 	"path/filepath"
 )
 
@@ -101,7 +103,7 @@ func cloneReplicas(p *types.Project) {
 			if proc.Replicas == 1 {
 				p.Processes[repName] = proc
 			} else {
-				procsToAdd = append(procsToAdd, proc)
+				procsToAdd = append(procsToAdd, cloneForReplica(proc))
 			}
 		}
 	}
@@ -111,6 +113,31 @@ func cloneReplicas(p *types.Project) {
 	for _, proc := range procsToAdd {
 		p.Processes[proc.ReplicaName] = proc
 	}
+}
+
+// cloneForReplica gives a replica its own copy of everything that is rendered per replica
+// (probes, vars); the struct copy alone would leave all replicas sharing them.
+func cloneForReplica(proc types.ProcessConfig) types.ProcessConfig {
+	proc.LivenessProbe = cloneProbe(proc.LivenessProbe)
+	proc.ReadinessProbe = cloneProbe(proc.ReadinessProbe)
+	proc.Vars = maps.Clone(proc.Vars)
+	return proc
+}
+
+func cloneProbe(probe *health.Probe) *health.Probe {
+	if probe == nil {
+		return nil
+	}
+	clone := *probe
+	if probe.Exec != nil {
+		exec := *probe.Exec
+		clone.Exec = &exec
+	}
+	if probe.HttpGet != nil {
+		httpGet := *probe.HttpGet
+		clone.HttpGet = &httpGet
+	}
+	return &clone
 }
 
 func assignExecutableAndArgs(p *types.Project) {
